@@ -70,7 +70,7 @@ def huge_pair_jobs(rng, n):
     """Three neighbouring extents of 257..336 blocks; the first two are deleted (acknowledged), then a large record is
     written into the merged free run; close, reopen."""
     return [("hugepair%d" % i, ["--seed", str(rng.randrange(1 << 30)), "--steps", "18", "--fmt", str([3, 2, 1][i % 3]), "--blocks", "1500",
-                                "--cpus", "2", "--keys", "3", "--ttl", "0", "--end", "drop", "--flushpct", "30", "--maximages", "40",
+                                "--cpus", "2", "--keys", "3", "--ttl", "0", "--end", "drop", "--flushpct", "30", "--maximages", "200",
                                 "--huge", "100", "--hugepair", "1", "--edges", "0", "--cc", "4"]) for i in range(n)]
 
 
